@@ -164,6 +164,7 @@ type pcase struct {
 	DstIA   uint64        `json:"dst_ia"`
 	Path    wire.PathSpec `json:"path"`
 	SrcPort uint16        `json:"src_port"`
+	BigE2E  int           `json:"big_e2e,omitempty"` // forwarded packets: number of 250-byte options of an unknown type in the end-to-end extension (4 of them come to 1012 of the 1024 bytes an extension can have)
 	SPAO    string        `json:"spao"` // "none" | "valid" | "mac-bit" | "covered-byte" | "other-spi" | "other-algo" | "server-spi" | "meta-bit"
 	Bit     int           `json:"bit"`  // which bit / byte to disturb
 	HBH     bool          `json:"hbh"`
@@ -250,6 +251,21 @@ func checkCase(t failer, c pcase) (labels []string) {
 	if c.SPAO != "none" && p.SCMP == nil {
 		authOpt = wire.NewAuthOpt(spi, algo)
 		p.E2E = []*slayers.EndToEndOption{authOpt}
+		if c.SPAO == "second-valid" || c.SPAO == "second-mac-bit" {
+			// an authenticator option of somebody else's (another SPI, arbitrary MAC) in front of the time service's:
+			// an extension may hold several, and other options are not part of the MAC input
+			other := wire.NewAuthOpt(spi^(1<<uint(c.Bit%20)), algo)
+			for i := 12; i < len(other.OptData); i++ {
+				other.OptData[i] = byte(c.Bit>>uint(i%5)) ^ byte(i)
+			}
+			p.E2E = []*slayers.EndToEndOption{other, authOpt}
+		}
+	}
+	if c.BigE2E > 0 && authOpt == nil && p.SCMP == nil {
+		for i := 0; i < c.BigE2E; i++ {
+			p.E2E = append(p.E2E, &slayers.EndToEndOption{OptType: slayers.OptionType(200 + i), OptData: bytes.Repeat([]byte{byte(0x40 + i)}, 250)})
+		}
+		labels = append(labels, fmt.Sprintf("end-to-end-extension-with-%d-big-options", c.BigE2E))
 	}
 	raw, err := p.Serialize(authOpt, zeroKey)
 	if err != nil {
@@ -264,7 +280,7 @@ func checkCase(t failer, c pcase) (labels []string) {
 		}
 		optOff := bytes.Index(raw, authOpt.OptData)
 		switch c.SPAO {
-		case "mac-bit":
+		case "mac-bit", "second-mac-bit":
 			raw[optOff+12+(c.Bit/8)%16] ^= 1 << (c.Bit % 8)
 			expectAuthFail = true
 		case "meta-bit": // timestamp / sequence number bytes of the authenticator metadata (covered by the MAC)
@@ -380,7 +396,7 @@ func checkCase(t failer, c pcase) (labels []string) {
 			t.Fatalf("%s: NTP reply does not echo the request's transmit timestamp / is not server mode", describe(c))
 		}
 		present, rspi, ralgo, ok, verr := r.VerifySPAO(zeroKey)
-		if c.SPAO == "valid" {
+		if c.SPAO == "valid" || c.SPAO == "second-valid" {
 			if !present || verr != nil || rspi != scion.PacketAuthSPIServer || ralgo != scion.PacketAuthAlgorithm || !ok {
 				t.Fatalf("%s: reply to an authenticated request: authenticator present=%v spi=%#x algo=%d verifies=%v err=%v", describe(c), present, rspi, ralgo, ok, verr)
 			}
@@ -512,7 +528,7 @@ func genPath(t *rapid.T) wire.PathSpec {
 	return ps
 }
 
-var recProbe = ev.New("c13/listener-probes", "rapid: SCION packets built with slayers and sent from a harness 'previous hop' socket to the real SCION listener (service port and end-host port 30041, USE_MOCK_KEYS=true): payload {NTP request, SCMP echo (0..1200 data bytes), SCMP traceroute, UDP to another end-host port, UDP to port 30041}; SCION host addresses IPv4 / IPv6 / IPv4-mapped IPv6 on either side, arbitrary ISD-AS; path {empty, SCION with 1..3 segments x 1..16 hops at every CurrINF/CurrHF position, one-hop}; arbitrary L4 source port; hop-by-hop extension present or not; packet authenticator {absent, valid MAC, flipped MAC bit, flipped covered payload byte, flipped authenticator metadata bit, other SPI, server-direction SPI, other algorithm}. Each probe is followed by a sentinel on the same socket pair. Oracle: time-service authenticator whose recomputed MAC differs => no reply; valid => reply with server-direction authenticator that verifies; every reply returns to the previous hop with ISD-AS/host/port exchanged, path equal to an independently computed reversal, NTP transmit timestamp / SCMP identifier, sequence number and data echoed; forwarding exactly when received on the end-host port for a port != 30041, once, payload and addresses unchanged; nothing ever reaches port 30041 of the destination host. Non-trivial: non-empty path, authenticator present, or the forwarding branch; distinct by case hash")
+var recProbe = ev.New("c13/listener-probes", "rapid: SCION packets built with slayers and sent from a harness 'previous hop' socket to the real SCION listener (service port and end-host port 30041, USE_MOCK_KEYS=true): payload {NTP request, SCMP echo (0..1200 data bytes), SCMP traceroute, UDP to another end-host port, UDP to port 30041}; SCION host addresses IPv4 / IPv6 / IPv4-mapped IPv6 on either side, arbitrary ISD-AS; path {empty, SCION with 1..3 segments x 1..16 hops at every CurrINF/CurrHF position, one-hop}; arbitrary L4 source port; hop-by-hop extension present or not; packet authenticator {absent, valid MAC, flipped MAC bit, the same two behind another party's authenticator option (other SPI) in the same extension, flipped covered payload byte, flipped authenticator metadata bit, other SPI, server-direction SPI, other algorithm}. Each probe is followed by a sentinel on the same socket pair. Oracle: time-service authenticator whose recomputed MAC differs => no reply; valid => reply with server-direction authenticator that verifies; every reply returns to the previous hop with ISD-AS/host/port exchanged, path equal to an independently computed reversal, NTP transmit timestamp / SCMP identifier, sequence number and data echoed; forwarding exactly when received on the end-host port for a port != 30041, once, payload and addresses unchanged (also when the end-to-end extension is nearly as long as an extension can be: 1..4 options of 250 bytes); nothing ever reaches port 30041 of the destination host. Non-trivial: non-empty path, authenticator present, or the forwarding branch; distinct by case hash")
 
 func TestPropListenerProbes(t *testing.T) {
 	vt.Check(t, 2500, 25000, func(t *rapid.T) {
@@ -524,7 +540,7 @@ func TestPropListenerProbes(t *testing.T) {
 			SrcIA:   rapid.Uint64().Draw(t, "srcia"), DstIA: rapid.Uint64().Draw(t, "dstia"),
 			Path:    genPath(t),
 			SrcPort: rapid.Uint16Range(1, 65535).Draw(t, "srcport"),
-			SPAO:    rapid.SampledFrom([]string{"none", "none", "valid", "valid", "mac-bit", "covered-byte", "meta-bit", "other-spi", "server-spi", "other-algo", "l4-prefix"}).Draw(t, "spao"),
+			SPAO:    rapid.SampledFrom([]string{"none", "none", "valid", "valid", "mac-bit", "covered-byte", "meta-bit", "other-spi", "server-spi", "other-algo", "l4-prefix", "second-valid", "second-mac-bit", "second-mac-bit"}).Draw(t, "spao"),
 			Bit:     rapid.IntRange(0, 1<<16).Draw(t, "bit"),
 			HBH:     rapid.IntRange(0, 4).Draw(t, "hbh") == 3,
 			EchoLen: rapid.OneOf(rapid.IntRange(0, 1200), rapid.IntRange(0, 16)).Draw(t, "echolen"),
@@ -540,6 +556,7 @@ func TestPropListenerProbes(t *testing.T) {
 			if c.EchoLen < 1 {
 				c.EchoLen = 1
 			}
+			c.BigE2E = rapid.SampledFrom([]int{0, 0, 0, 1, 3, 4, 4}).Draw(t, "big-e2e")
 			if c.SPAO != "none" && c.SPAO != "valid" {
 				c.SPAO = "none"
 			}
@@ -636,7 +653,7 @@ func TestPropEndToEnd(t *testing.T) {
 	}
 	vt.Check(t, 300, 3000, func(t *rapid.T) {
 		authOn := rapid.Bool().Draw(t, "client-auth")
-		tamper := rapid.SampledFrom([]string{"none", "none", "request-byte", "reply-byte", "reply-byte", "reply-l4-prefix", "reply-hbh-flip"}).Draw(t, "tamper")
+		tamper := rapid.SampledFrom([]string{"none", "none", "request-byte", "reply-byte", "reply-byte", "reply-l4-prefix", "reply-hbh-flip", "reply-second-authenticator"}).Draw(t, "tamper")
 		ps := genPath(t)
 		if ps.Kind == "onehop" {
 			ps.Kind = "empty"
@@ -666,7 +683,7 @@ func TestPropEndToEnd(t *testing.T) {
 		}
 		relay.mu.Lock()
 		relay.seenReq, relay.seenRsp, relay.mutReq, relay.mutRsp = nil, nil, nil, nil
-		if !authOn && (tamper == "reply-l4-prefix" || tamper == "reply-hbh-flip") {
+		if !authOn && (tamper == "reply-l4-prefix" || tamper == "reply-hbh-flip" || tamper == "reply-second-authenticator") {
 			tamper = "none" // these are about what the authenticator covers
 		}
 		switch tamper {
@@ -690,6 +707,28 @@ func TestPropEndToEnd(t *testing.T) {
 				out := append(append(bytes.Clone(b[:l4]), forged...), b[l4:]...)
 				binary.BigEndian.PutUint16(out[6:], binary.BigEndian.Uint16(out[6:])+uint16(len(forged)))
 				return out
+			}
+		case "reply-second-authenticator":
+			// the reply re-serialized with another party's authenticator option (other SPI) in front of the genuine one
+			// in the same extension, and one covered payload byte changed
+			relay.mutRsp = func(b []byte) []byte {
+				p, err := wire.Parse(b)
+				if err != nil || !p.IsUDP || !p.HasE2E || len(p.UDP.Payload) < 48 {
+					return b
+				}
+				src, _ := p.SrcAddr()
+				dst, _ := p.DstAddr()
+				other := wire.NewAuthOpt(scion.PacketAuthSPIServer^(1<<uint(bit%16)), scion.PacketAuthAlgorithm)
+				for i := 12; i < len(other.OptData); i++ {
+					other.OptData[i] = byte(bit>>uint(i%7)) ^ byte(i)
+				}
+				out := wire.Pkt{SrcIA: p.SCION.SrcIA, DstIA: p.SCION.DstIA, Src: src, Dst: dst, Path: p.SCION.Path, SrcPort: p.UDP.SrcPort, DstPort: p.UDP.DstPort,
+					Payload: flip(bytes.Clone(p.UDP.Payload)), E2E: append([]*slayers.EndToEndOption{other}, p.E2E.Options...), TrafficClass: p.SCION.TrafficClass, FlowID: p.SCION.FlowID}
+				raw, err := out.Serialize(nil, nil)
+				if err != nil {
+					return b
+				}
+				return raw
 			}
 		case "reply-hbh-flip":
 			// the reply re-serialized with a hop-by-hop extension in front of the end-to-end extension (authenticator
@@ -766,7 +805,7 @@ func TestPropEndToEnd(t *testing.T) {
 			if merr == nil {
 				t.Fatalf("client reported an offset although no reply was delivered")
 			}
-		case authOn && (tamper == "reply-byte" || tamper == "reply-l4-prefix" || tamper == "reply-hbh-flip"):
+		case authOn && (tamper == "reply-byte" || tamper == "reply-l4-prefix" || tamper == "reply-hbh-flip" || tamper == "reply-second-authenticator"):
 			if merr == nil {
 				t.Fatalf("client accepted a reply whose covered byte was changed after the server authenticated it (offset %v)", off)
 			}
